@@ -170,6 +170,20 @@ func (s *shaper) streamArg(v ssa.Value) bool {
 	if core.Canon(v) == s.stream {
 		return true
 	}
+	// a local buffer captured by reference in a function literal (`var out bytes.Buffer`
+	// written as &out inside an immediately invoked literal): the free variable is the cell
+	if fv, ok := core.Canon(v).(*ssa.FreeVar); ok {
+		for depth := 0; fv != nil && depth < 4; depth++ {
+			b := core.FreeVarBinding(fv)
+			if b == nil {
+				break
+			}
+			if core.Canon(b) == s.stream {
+				return true
+			}
+			fv, _ = core.Canon(b).(*ssa.FreeVar)
+		}
+	}
 	// a field of the stream holder (q.r / q.w of the reflection codec)
 	if _, isParam := s.stream.(*ssa.Parameter); isParam && len(core.AccessPath(v).Fields) > 0 && core.RootOf(v) == s.stream {
 		return true
